@@ -4,3 +4,5 @@ package agent
 const verifDispatchMaxL = 8
 const verifDispatchDeepL = 64
 const verifHistorySteps = 4
+const verifChainMaxDepth = 3
+const verifChainFullID = false
